@@ -33,11 +33,11 @@ TAGS = {
 }
 CORR = (1, 2, 3, 4, 5, 6, 7, 8)
 ORACLE = (11, 12, 13, 14, 15, 16, 17)
-# guard tag -> finding id: an oracle failure (11/12) is excused only when the faithful model explains it (no
-# correspondence tag), the guard conjunct is false on that input and the finding is listed open
-GUARD_FINDING = {201: 'C17-STATIC-KEY', 202: 'C17-STATIC-CALLABLE-TUPLE'}
-# (C17-CONTEXT-REORDERS-PREDECESSORS is fixed in /repo 4400919: tag 203 is only a distribution fact now, a wrong
-# predecessor order is a VIOLATION)
+# No open finding is left (C17-CONTEXT-REORDERS-PREDECESSORS fixed in /repo 4400919, C17-STATIC-KEY and
+# C17-STATIC-CALLABLE-TUPLE in d3e6e19): every oracle failure is a VIOLATION.  Tags 201 (a static input contains a key
+# string), 202 (... a callable-headed tuple), 203 (a context-taking predecessor precedes a plain one) only describe the
+# input distribution.
+GUARD_FINDING = {}
 
 
 # ------------------------------------------------------------------ generator
@@ -46,11 +46,14 @@ SAFE_STATICS = [
     {'l': [{'s': 'abc'}, {'i': 3}]}, {'d': {'k': 'results'}}, {'d': {}}, {'s': 'result'}, {'s': 'Results'},
     {'t': [{'s': 'abc'}, {'f': 1}]}, {'l': [{'t': [{'i': 1}, {'l': [{'s': 'q'}]}]}]}, {'f': 1}, {'f': 2},
     {'t': [{'t': [{'i': 4}]}, {'n': None}]}, {'s': ''}, {'l': []},
+    {'D': [[{'s': 'k'}, {'i': 1}], [{'i': 2}, {'l': [{'s': 'abc'}]}]]},
 ]
 UNSAFE_STATICS = [
     {'s': 'results'}, {'t': [{'s': 'results'}]}, {'l': [{'s': 'results'}]}, {'t': [{'f': 1}, {'s': 'xyz'}]},
     {'l': [{'t': [{'f': 2}, {'i': 1}]}]}, {'t': [{'f': 1}]}, {'t': [{'i': 1}, {'t': [{'f': 2}, {'s': 'abc'}, {'i': 2}]}]},
     {'t': [{'f': 1}, {'t': [{'f': 2}, {'s': 'abc'}]}]}, {'l': [{'i': 0}, {'l': [{'s': 'results'}]}]},
+    {'D': [[{'s': 'k'}, {'s': 'results'}]]}, {'D': [[{'s': 'results'}, {'i': 1}]]},
+    {'D': [[{'s': 'k'}, {'l': [{'D': [[{'i': 1}, {'t': [{'f': 2}, {'s': 'q'}]}]]}]}]]}, {'l': [{'d': {'k': 'results'}}]},
 ]
 
 
@@ -64,7 +67,8 @@ def gen_fns(rng, nf, p_ctx):
 
 
 def gen_tasks(rng, nt, nf, p_unsafe):
-    unsafe_case = rng.random() < p_unsafe
+    # 'unsafe' = static input that dask would reinterpret if as_dask_dict did not quote it
+    unsafe_case = rng.random() < 3 * p_unsafe
     tasks = []
     for i in range(nt):
         k = rng.choice([0, 0, 0, 1, 1, 2])
@@ -377,13 +381,17 @@ class Exporter:
             return '(STuple ' + ct.lst([self.sval(x) for x in v]) + ')'
         if type(v) is list:
             return '(SList ' + ct.lst([self.sval(x) for x in v]) + ')'
+        if type(v) is dict:
+            return '(SDict ' + ct.lst([self.sval(x) for x in v]) + ' ' + ct.lst([self.sval(x) for x in v.values()]) + ')'
+        if type(v).__name__ == 'literal' and type(v).__module__ == 'dask.core':
+            return '(SLit ' + self.sval(v.data) + ')'
         try:
             j = self.fam.index.get(v) if callable(v) else None
         except TypeError:
             j = None
         if j is not None:
             return f'(SFun {ct.pos(j)})'
-        # ints, None, dicts and anything unknown: an opaque atom identified by type and repr
+        # ints, None and anything unknown: an opaque atom identified by type and repr
         return f"(SAtom {self.atoms.p(type(v).__name__ + ':' + repr(v))})"
 
     def svals(self, vs):
@@ -406,6 +414,8 @@ def static_value(s, fam):
         return fam.funcs[(v - 1) % len(fam.funcs)]
     if k == 'd':
         return dict(v)
+    if k == 'D':
+        return {static_value(a, fam): static_value(b, fam) for a, b in v}
     raise ValueError(s)
 
 
@@ -687,7 +697,7 @@ def finding_probes(ctx):
             continue
         verdicts, _ = run_specs(ctx, [f['witness']], 'finding-' + f['id'])
         tags = set(verdicts[0])
-        guard = {v: k for k, v in GUARD_FINDING.items()}[f['id']]
+        guard = {v: k for k, v in GUARD_FINDING.items()}.get(f['id'])
         if f['expect_tag'] in tags and guard in tags and not (tags & set(CORR)):
             ctx.known(f['id'])
         else:
@@ -714,7 +724,8 @@ def run(ctx):
         'task functions are pure (the theorems quantify over an arbitrary pure interpretation of the callables)',
         'not covered: the dask.distributed dispatcher path (LocalCluster, optimize.py scatter/fuse, call_workflow); '
         'real OS thread scheduling; uuid4 collisions (keys are assumed fresh: guard g_keys_fresh)',
-        'not covered: static inputs that are sets / frozensets / named tuples / dask futures (dask treats them specially)',
+        'not covered: static inputs that are sets / frozensets / named tuples / dask futures (as_dask_dict quotes sets '
+        'with key strings; the value universe of the model has no sets)',
         'dask (2026.x graph spec) and networkx 3.x are engines: modelled as executable functions, validated by the correspondence',
     ]
     ctx.coverage['source_sha'] = source_sha(
@@ -742,7 +753,8 @@ def run(ctx):
         'WorkflowBuilder(Workflow(.)), insert_context, closing add_task on output_tasks, output task entered early or last) over 1-12 tasks of a pure '
         'call-logging function family with and without a context parameter, twin tasks (distinct objects equal in name, '
         'function and static inputs, with different or identical predecessors) and static inputs (strings, ints, None, '
-        'tuples, lists, dicts, callables; a small stream with key-like strings and callable-headed tuples, cycles and '
+        'tuples, lists, dicts, callables; a stream with key strings and callable-headed tuples also nested in tuples / lists / '
+        'dict values, which as_dask_dict must quote; cycles and '
         'multi-sink graphs), executed with the real execute_workflow + threaded local_dask dispatcher; from VERIF_SEED; '
         'thorough adds every forward-edge DAG on <= 5 tasks; non-trivial = at least 3 tasks and 2 edges; distinct by spec text')
     ctx.coverage['case_status'] = stats
@@ -753,8 +765,8 @@ def run(ctx):
         'ops_raising_ValueError': sum(i['errs'] for i in infos),
         'with_context_tasks': sum(1 for i in infos if i['ctx_tasks'] > 0),
         'with_twin_tasks': sum(1 for i in infos if i['twins'] > 0),
-        'guard_static_nokey_false': sum(1 for v in verdicts if 201 in v),
-        'guard_static_nocall_false': sum(1 for v in verdicts if 202 in v),
+        'static_input_with_key_string_quoted': sum(1 for v in verdicts if 201 in v),
+        'static_input_with_callable_tuple_quoted': sum(1 for v in verdicts if 202 in v),
         'context_predecessor_before_plain_one': sum(1 for v in verdicts if 203 in v),
         'not_single_sink': sum(1 for v in verdicts if 204 in v),
         'cyclic': sum(1 for v in verdicts if 205 in v),
